@@ -52,6 +52,7 @@ EXPECTED_PROBES = [
 
 NAMES = ["@", "a", "sub", "ns.sub", "deep.ns.sub", "x.sub", "sub2.sub", "a.sub2.sub", "zz", "leaf.ent", "*.w", "sub3", "g.sub3", "b.a"]
 TYPES = ["NS", "NS", "NS", "A", "TXT", "CNAME", "AAAA", "RRSIG:CNAME", "RRSIG:NS"]  # signatures: covering CNAME displaces NS like a CNAME; covering NS alone makes no cut
+TYPES_CH = ["NS", "NS", "NS", "TXT", "CNAME", "MX", "RRSIG:CNAME", "RRSIG:NS"]  # (A/AAAA have other formats outside class IN)
 QUERY_EXTRA = ["0", "aa", "sub1", "q.sub", "q.ns.sub", "z.deep.ns.sub", "ent", "q.ent", "zzz", "q.zz", "w", "q.w", "sub2", "t.sub2.sub", "sub4", "q.a", "z.b.a", "\\000.sub", "sub\\000"]
 
 
@@ -65,6 +66,8 @@ def gen_case(seed, tier):
     names = rng.sample(NAMES, rng.choice([4, 6, 9, len(NAMES)]))
     if "@" not in names:
         names.append("@")
+    rdclass = "CH" if rng.random() < 0.1 else "IN"
+    TYPES = TYPES_CH if rdclass == "CH" else globals()["TYPES"]
     nested_ok = rng.random() < 0.6
     if not nested_ok:
         names = [n for n in names if n not in ("sub2.sub", "a.sub2.sub")]
@@ -102,7 +105,7 @@ def gen_case(seed, tier):
                     "repl": rng.random() < 0.08,
                 }
             )
-    cfg = {"relativize": rng.random() < 0.5, "load_replacement": rng.random() < 0.7, "nested": nested_ok, "load_text_no_origin": rng.random() < 0.15}
+    cfg = {"relativize": rng.random() < 0.5, "load_replacement": rng.random() < 0.7, "nested": nested_ok, "load_text_no_origin": rng.random() < 0.15, "rdclass": rdclass}
     return {"prop": PROP, "seed": seed, "cfg": cfg, "base": base, "steps": steps, "btree_t": rng.choice([3, 3, 4, 127])}
 
 
@@ -155,14 +158,16 @@ class _World:
         self.readers = []  # (txn, model snapshot dict, commits_at_open)
         self.commits = 0
         self.nontrivial = False
-        text_ok = all(op["o"] == "add" and op["n"] not in ("OUT", "LONG") and op.get("cls", "IN") == "IN" and op["t"] not in ("CNAME", "RRSIG:CNAME") for op in case["base"])  # (the master-file reader refuses CNAME-and-other-data instead of displacing)
-        if cfg.get("load_text_no_origin") and text_ok:
+        text_ok = all(op["o"] == "add" and op["n"] not in ("OUT", "LONG", "OVER") and op.get("cls", "IN") == "IN" and op["t"] not in ("CNAME", "RRSIG:CNAME") for op in case["base"])  # (the master-file reader refuses CNAME-and-other-data instead of displacing)
+        if cfg.get("load_text_no_origin") and text_ok and cfg.get("rdclass", "IN") == "IN":
             # the origin is not given to the constructor: it comes from $ORIGIN in the text
             self.b, self.model = Z.load_bench_from_text("btree", cfg["relativize"], case["base"])
             self.zone = self.b.zone
             res.probes.inc("initial_load_origin_from_text")
         else:
-            self.b = Z.Bench("btree", cfg["relativize"])
+            self.b = Z.Bench("btree", cfg["relativize"], rdclass=cfg.get("rdclass", "IN"))
+            if cfg.get("rdclass", "IN") != "IN":
+                res.probes.inc("zone_of_another_class")
             self.zone = self.b.zone
             self.model = Z.load_bench(self.b, case["base"], replacement=cfg.get("load_replacement", True))
         self.note_shape(None, self.model)
